@@ -12,16 +12,28 @@ Fixpoint lookup {A} (d : A) (k : list Q) (t : list (list Q * A)) : A :=
 
 (** oracle tables recorded from the implementation's calls, keyed by the parameter vector of the call *)
 Record tab := { t_pdf1 : list (list Q * list Q);
-                t_tl1 : list (list Q * (Q * Q));
+                t_quad1 : list (list Q * Q * option Q * Q);   (* (params, lo, hi (None: inf)) -> quad(pdf, lo, hi, args=params) *)
                 t_pdf2 : list (list Q * list (list Q));
                 t_test2 : list (list Q * list (list Q));
                 t_tl2 : list (list Q * @tails2 Q) }.
 
 Definition no_tails : @tails2 Q := {| q1low := []; q1high := []; q2low := []; q2high := []; c_nn := 0; c_dn := 0; c_nd := 0 |}.
 
-Definition mk_oracle (t : tab) (sq : Q) : @oracle Q :=
+Definition optQ_eqb (a b : option Q) : bool :=
+  match a, b with Some x, Some y => Qeq_bool x y | None, None => true | _, _ => false end.
+
+(** the quad oracle: integrals of the 1-D pdf over the documented regions of every cache of the scenario, computed by
+    scipy.integrate.quad on exactly those limits (an integral over a region that is not in the table counts as 0) *)
+Fixpoint lookq (t : list (list Q * Q * option Q * Q)) (p : list Q) (lo : Q) (hi : option Q) : Q :=
+  match t with
+  | [] => 0
+  | (p', lo', hi', v) :: r => if Qlist_eqb p p' && Qeq_bool lo lo' && optQ_eqb hi hi' then v else lookq r p lo hi
+  end.
+
+(** [xs1] = the grid of the 1-D cache: its integrate takes the tails of that grid *)
+Definition mk_oracle (t : tab) (sq : Q) (xs1 : list Q) : @oracle Q :=
   {| pdf1 := fun p => lookup [] p (t_pdf1 t);
-     tl1 := fun p => lookup (0, 0) p (t_tl1 t);
+     tl1 := fun p => tails_on (lookq (t_quad1 t)) p xs1;
      pdf2 := fun p => lookup [] p (t_pdf2 t);
      sym2 := fun p => allclose_sym (lookup [] p (t_test2 t));
      tl2 := fun p => lookup no_tails p (t_tl2 t);
@@ -48,8 +60,7 @@ Inductive op :=
 | OMix (ext : bool) (theta : Q) (params : list Q)
 | OMixSym (rep1 rep : bool) (theta : Q) (params : list Q)
 | OMixPP (rep1 rep : bool) (theta : Q) (params : list Q)
-| OVour (theta : Q) (w1 : list Q) (wneu1 wdel1 : Q) (W2 test2 : list (list Q)) (t2 : @tails2 Q)
-        (w2 : list Q) (wneu2 wdel2 : Q) (params : list Q).
+| OVour (theta : Q) (w1 : list Q) (W2 test2 : list (list Q)) (t2 : @tails2 Q) (w2 : list Q) (params : list Q).
 
 Record dcase := { d_op : op; d_tab : tab; d_sq : Q; d_k1 : kache1; d_k2 : kache2;
                   d_ents : list nat;                 (* unmasked entries *)
@@ -57,7 +68,7 @@ Record dcase := { d_op : op; d_tab : tab; d_sq : Q; d_k1 : kache1; d_k2 : kache2
 
 (** model value at entry [e]; for OPP1 also whether the cache state after the call agrees *)
 Definition model_entry (c : dcase) (e : nat) : option Q * bool :=
-  let o := mk_oracle (d_tab c) (d_sq c) in
+  let o := mk_oracle (d_tab c) (d_sq c) (k1_xs (d_k1 c)) in
   let s1 := view1 (d_k1 c) e in
   let s2 := view2 (d_k2 c) e in
   match d_op c with
@@ -76,10 +87,10 @@ Definition model_entry (c : dcase) (e : nat) : option Q * bool :=
   | OMix ext theta params => (Some (mixture o s1 s2 ext theta params), true)
   | OMixSym rep1 rep theta params => (mixture_sym_point_pos o s1 s2 rep1 rep theta params, true)
   | OMixPP rep1 rep theta params => (mixture_point_pos o s1 s2 rep1 rep theta params, true)
-  | OVour theta w1 wneu1 wdel1 W2 test2 t2 w2 wneu2 wdel2 params =>
+  | OVour theta w1 W2 test2 t2 w2 params =>
     match params with
-    | [_; _; pw; gp; pc; pcp] =>
-      (vourlaki theta s1 s2 w1 wneu1 wdel1 W2 (allclose_sym test2) t2 w2 wneu2 wdel2 pw gp pc pcp, true)
+    | [al; be; pw; gp; pc; pcp] =>
+      (vourlaki_q (lookq (t_quad1 (d_tab c))) theta s1 s2 w1 W2 (allclose_sym test2) t2 w2 [al; be] pw gp pc pcp, true)
     | _ => (None, true)
     end
   end.
